@@ -256,3 +256,9 @@ def fingerprint(r, clauses):
 def sample(r):
     return dict(argv=r['argv'], exit=r['exit'], before=[e['area'] + ':' + e['path'] for e in r['before']],
                 after=[e['area'] + ':' + e['path'] for e in r['after']])
+
+
+def corrupt(r):
+    r['after'] = r['after'] + [dict(area='aux', path='planted', depth=0, name=[120], type='f', sha='0', eid=[], stem=[],
+                                    idbytes=[])]
+    return r
